@@ -71,7 +71,30 @@ def hashes_for(rng, scheme, n):
             out.append((hh.hash(pw, **ctx), pw, ctx, ",".join(f"{k}={v}" for k, v in sorted(st.items()) if k not in ("salt", "rounds")) or "default"))
         except Exception:
             continue
+    if scheme in CATCHALL:
+        # passwords that look a little like something else but are claimed by no real scheme
+        for pw in ("{unclosed", "{}", "{x-y}z", "{ spaced }pw", "!bang", "*star", "$notahash", "x{SSHA}", "a:b", "{é-}x", "!", "*"):
+            try:
+                out.append((h.hash(pw), pw, {}, "hostile-first-character"))
+            except Exception:
+                continue
     return out
+
+
+def short(cname):
+    return cname if cname.startswith("ext.") else cname.split(".")[-1]
+
+
+def categories_of(ctx):
+    cats = {None, "nosuchcategory"}
+    try:
+        for k in ctx.to_dict():
+            parts = k.split("__")
+            if len(parts) == 3:
+                cats.add(parts[0])
+    except Exception:
+        pass
+    return sorted(cats, key=str)
 
 
 def work(run, names):
@@ -88,6 +111,7 @@ def work(run, names):
             run.violation(f"C17|{cname}|cannot-load|{type(e).__name__}", f"shipped context {cname} cannot be loaded: {type(e).__name__}: {str(e)[:100]}", dict(context=cname))
             continue
         run.count("contexts")
+        cats = categories_of(ctx)
         n = 4 if run.tier == "quick" else 40
         if cname == "apps.master_context":
             n = 3 if run.tier == "quick" else 25
@@ -121,6 +145,21 @@ def work(run, names):
                 except Exception as e:
                     run.violation(f"C17|{cname}|{s}|identify-raises|{type(e).__name__}", f"{cname}.identify raised {e}", w, rp)
                     continue
+                # the same through every user category the context knows (and one it does not)
+                for cat in cats:
+                    if cat is None:
+                        continue
+                    try:
+                        gc = ctx.identify(hs, category=cat)
+                        vc = ctx.verify(pw, hs, category=cat, **ck) if gc == s else None
+                    except Exception as e:
+                        gc, vc = f"EXC:{type(e).__name__}", None
+                    run.count("category_attributions")
+                    run.case((cname, s, "category", cat), None)
+                    if gc != got or (gc == s and vc is not True):
+                        run.violation(f"C17|{short(cname)}|{s}|category-changes-attribution",
+                                      f"{cname}: a {s} hash is attributed to {got!r} without category but to {gc!r} (verify -> {vc!r}) with category={cat!r}", dict(w, category=cat), rp)
+                        break
                 run.case((cname, s, variant), w)
                 run.count(f"pairs:{cname}")
                 run.count("attributions")
@@ -129,25 +168,25 @@ def work(run, names):
                         run.count("master_context_inherent_format_identity")
                         continue
                     kind = "shadowed-by-catch-all" if got in CATCHALL else f"attributed-to-{got}"
-                    run.violation(f"C17|{cname.split('.')[-1]}|{s}|{kind}", f"{cname}: a hash made by its scheme {s} ({variant}) is attributed to {got!r}", w, rp)
+                    run.violation(f"C17|{short(cname)}|{s}|{kind}", f"{cname}: a hash made by its scheme {s} ({variant}) is attributed to {got!r}", w, rp)
                     continue
                 try:
                     ok = ctx.verify(pw, hs, **ck)
                     text_ok = ctx.verify(hs, hs, **ck) if s not in CATCHALL else False
                     wrong = ctx.verify(pw + "x", hs, **ck) if len(pw) < 7 or s not in ("des_crypt", "django_des_crypt", "ldap_des_crypt") else False
                 except Exception as e:
-                    run.violation(f"C17|{cname.split('.')[-1]}|{s}|verify-raises|{type(e).__name__}", f"{cname}.verify raised {type(e).__name__}: {str(e)[:100]}", w, rp)
+                    run.violation(f"C17|{short(cname)}|{s}|verify-raises|{type(e).__name__}", f"{cname}.verify raised {type(e).__name__}: {str(e)[:100]}", w, rp)
                     continue
                 if ok is not True:
-                    run.violation(f"C17|{cname.split('.')[-1]}|{s}|password-rejected", f"{cname}: the password of a {s} hash is rejected through the context", w, rp)
+                    run.violation(f"C17|{short(cname)}|{s}|password-rejected", f"{cname}: the password of a {s} hash is rejected through the context", w, rp)
                 if text_ok or wrong:
-                    run.violation(f"C17|{cname.split('.')[-1]}|{s}|{'hash-text-accepted-as-password' if text_ok else 'wrong-password-accepted'}",
+                    run.violation(f"C17|{short(cname)}|{s}|{'hash-text-accepted-as-password' if text_ok else 'wrong-password-accepted'}",
                                   f"{cname}: a {s} hash verifies {'its own text' if text_ok else 'a wrong password'}", w, rp)
         # catch-alls never precede a real scheme
         for i, s in enumerate(schemes):
             # (ldap_plaintext / roundup_plaintext only claim strings without / with their own prefix: judged by attribution above)
             if s == "plaintext" and any(o not in CATCHALL and o not in H.DISABLED for o in schemes[i + 1:]):
-                run.violation(f"C17|{cname.split('.')[-1]}|catch-all-before-real-scheme", f"{cname}: {s} precedes {schemes[i + 1:]}", dict(context=cname, schemes=schemes))
+                run.violation(f"C17|{short(cname)}|catch-all-before-real-scheme", f"{cname}: {s} precedes {schemes[i + 1:]}", dict(context=cname, schemes=schemes))
 
 
 def registry(run):
@@ -191,7 +230,56 @@ def registry(run):
                 run.violation(f"C17|{cname}|{s}|not-in-registry", f"{cname} lists scheme {s} which the registry does not know", dict(context=cname))
 
 
+ORDER_PROBE = r"""
+import json, sys, warnings, importlib
+warnings.simplefilter("ignore")
+out = {}
+for m in sys.argv[1].split(","):
+    importlib.import_module(m)
+import passlib.apps as A, passlib.hosts as Hs, passlib.apache as Ap
+for mod, pre in ((A, "apps."), (Hs, "hosts."), (Ap, "apache.")):
+    for n in dir(mod):
+        if n.endswith("_context"):
+            c = getattr(mod, n)
+            if not hasattr(c, "schemes"):
+                continue
+            out[pre + n] = dict(schemes=list(c.schemes()), default=c.default_scheme(), config=sorted((k, repr(v)) for k, v in c.to_dict().items()))
+print(json.dumps(out))
+"""
+
+
+def import_orders(run):
+    """the shipped contexts are the same objects whatever was imported first (each order in a fresh interpreter)"""
+    import itertools
+    import json
+    import subprocess
+    import sys
+    from vlib.run import REPO
+    mods = ["passlib.apps", "passlib.hosts", "passlib.apache", "passlib.registry", "passlib.ext.django.utils"]
+    orders = [list(p) for p in itertools.permutations(mods[:3])] + [[mods[3]] + mods[:3], [mods[4], mods[2], mods[1], mods[0]], [mods[1], mods[4], mods[2]]]
+    seen = {}
+    for order in orders:
+        try:
+            r = subprocess.run([sys.executable, "-c", ORDER_PROBE, ",".join(order)], capture_output=True, text=True, timeout=300, cwd=REPO)
+            res = json.loads(r.stdout.strip().splitlines()[-1])
+        except Exception as e:
+            run.violation(f"C17|import-order|probe-fails|{type(e).__name__}", f"importing {order} in a fresh interpreter failed: {str(e)[:100]} {r.stderr[-300:] if 'r' in dir() else ''}", dict(order=order))
+            continue
+        run.count("import_orders")
+        run.case(("import-order", tuple(order)), dict(import_order=order, contexts=len(res)))
+        for cname, desc in res.items():
+            if cname in seen and seen[cname][1] != desc:
+                first_order, first = seen[cname]
+                diff = [k for k in desc if desc[k] != first[k]]
+                run.violation(f"C17|{short(cname)}|depends-on-import-order", f"{cname} differs with the import order: {diff[0]} = {str(first[diff[0]])[:150]} after importing {first_order}, but {str(desc[diff[0]])[:150]} after {order}",
+                              dict(context=cname, order_a=first_order, order_b=order))
+            seen.setdefault(cname, (order, desc))
+
+
 def body(run):
+    import_orders(run)
+    run.require("import_orders", 6)
+    run.require("category_attributions", 200)
     names = list(contexts())
     run.extra["contexts"] = names
     order = sorted(names, key=lambda n: (n != "apps.master_context", n))
